@@ -189,13 +189,30 @@ def _desugar_match(tree: ast.AST) -> None:
         def visit_Match(self, node: ast.Match):
             self.generic_visit(node)
             subj = node.subject
-            if not isinstance(subj, (ast.Name, ast.Attribute)):
+
+            def pure(e: ast.AST) -> bool:
+                return isinstance(e, (ast.Name, ast.Constant)) or (isinstance(e, ast.Attribute) and pure(e.value)) \
+                    or (isinstance(e, ast.Subscript) and pure(e.value) and all(isinstance(x, (ast.Name, ast.Constant, ast.BinOp, ast.UnaryOp)) for x in [e.slice]))
+            tuple_subject = isinstance(subj, ast.Tuple) and all(pure(x) for x in subj.elts)
+            if not isinstance(subj, (ast.Name, ast.Attribute)) and not tuple_subject:
                 return node
             arms: list[tuple[ast.expr | None, list[ast.stmt]]] = []
             try:
                 for case in node.cases:
                     binds: list = []
-                    t = tr(case.pattern, subj, binds)
+                    if tuple_subject:
+                        # match a, b:  case (P, Q)  ->  P on a and Q on b (the tuple has exactly that many elements)
+                        pat = case.pattern
+                        if isinstance(pat, ast.MatchAs) and pat.pattern is None and pat.name is None:
+                            t = None
+                        elif isinstance(pat, ast.MatchSequence) and len(pat.patterns) == len(subj.elts) and not any(isinstance(x, ast.MatchStar) for x in pat.patterns):
+                            parts_ = [tr(sp, el, binds) for sp, el in zip(pat.patterns, subj.elts)]
+                            parts_ = [x for x in parts_ if x is not None]
+                            t = None if not parts_ else (parts_[0] if len(parts_) == 1 else ast.BoolOp(op=ast.And(), values=parts_))
+                        else:
+                            raise _No()
+                    else:
+                        t = tr(case.pattern, subj, binds)
                     guard = case.guard
                     if guard is not None and binds:
                         # the guard may mention the captures: read them as the expressions they are bound to
